@@ -306,10 +306,65 @@ impl FrameReceiver {
 """)
 
 
+F_FRAME = "node/components/network/src/frame.rs"
+
+PRELUDE_F = r"""
+// ---------------- prelude for frame::{mux_recv_proto, recv_proto} (A1: prost decode is external) ----------------
+#[verifier::external_body] pub struct Msg { _p: u8 }                    // T: ProtoFmt
+#[verifier::external_body] pub struct CtxError { _p: u8 }
+#[verifier::external_body] pub struct Transport { _p: u8 }              // S: io::AsyncRead + Unpin
+impl From<Canceled> for CtxError { #[verifier::external_body] fn from(e: Canceled) -> (r: CtxError) { unimplemented!() } }
+impl From<AnyhowError> for CtxError { #[verifier::external_body] fn from(e: AnyhowError) -> (r: CtxError) { unimplemented!() } }
+pub trait VerifContextIo<T> { fn context(self, c: ()) -> Result<T, AnyhowError>; }
+impl<T> VerifContextIo<T> for Result<T, IoError> {
+    #[verifier::external_body] fn context(self, c: ()) -> (r: Result<T, AnyhowError>)
+        ensures r.is_ok() == self.is_ok(), self.is_ok() ==> r == Result::<T, AnyhowError>::Ok(self->Ok_0) { unimplemented!() }
+}
+impl<T> VerifContextIo<T> for Result<T, AnyhowError> {
+    #[verifier::external_body] fn context(self, c: ()) -> (r: Result<T, AnyhowError>)
+        ensures r.is_ok() == self.is_ok(), self.is_ok() ==> r == Result::<T, AnyhowError>::Ok(self->Ok_0) { unimplemented!() }
+}
+#[verifier::external_body] pub fn proto_decode(b: &[u8]) -> (r: Result<Msg, AnyhowError>) { unimplemented!() }      // zksync_protobuf::decode (prost): total by A1
+#[verifier::external_body] pub fn verif_u32_from_le(b: [u8; 4]) -> (r: u32) { u32::from_le_bytes(b) }                // A1 (R-std)
+#[verifier::external_body] pub async fn io_read_exact_4(ctx: &Ctx, r: &mut Transport, buf: &mut [u8; 4]) -> (res: Result<Result<(), IoError>, Canceled>) { unimplemented!() }
+#[verifier::external_body] pub async fn io_read_exact_t(ctx: &Ctx, r: &mut Transport, buf: &mut [u8]) -> (res: Result<Result<(), IoError>, Canceled>)
+    ensures final(buf)@.len() == old(buf)@.len() { unimplemented!() }
+// R-std: `vec![0u8; n]` -- the allocation; its size is the obligation: never more than the caller's limit
+#[verifier::external_body] pub fn verif_alloc(n: usize, Ghost(limit): Ghost<usize>) -> (r: Vec<u8>) requires n <= limit ensures r@.len() == n { vec![0u8; n] }
+#[verifier::external_body] pub fn verif_vec_mut(v: &mut Vec<u8>) -> (r: &mut [u8]) ensures r@.len() == old(v)@.len(), final(v)@.len() == old(v)@.len() { &mut v[..] }
+"""
+
+
+def add_frame(U):
+    U.raw(PRELUDE_F, label="prelude frame")
+    U.fn(F_FRAME, "fn mux_recv_proto", ret="r", props=["C10", "C14"],
+         header_subs=[("<T: zksync_protobuf::ProtoFmt>", ""), ("ctx::Ctx", "Ctx"), ("mux::ReadStream", "ReadStream"),
+                      ("anyhow::Result<(T, usize)>", "Result<(Msg, usize), AnyhowError>")],
+         subs=[("bytes::Buffer::new(4)", "Buffer::new(4)"),
+               ("u32::from_le_bytes(msg_size.prefix())", "verif_u32_from_le(msg_size.prefix())   /* R-std */"),
+               ("let mut msg = bytes::Buffer::new(msg_size);", "assert(msg_size <= max_size);   /* W-ghost: a peer can make the node allocate at most max_size bytes per message */ let mut msg = Buffer::new(msg_size);"),
+               ("zksync_protobuf::decode(msg.as_slice())", "proto_decode(msg.as_slice())")],
+         spec="""
+    requires old(stream).0.wf(),
+    ensures final(stream).0.wf(),      // for every byte sequence the peer sends: a value or an error, never a panic
+""")
+    U.fn(F_FRAME, "fn recv_proto", ret="r", props=["C10"],
+         header_subs=[("<T: zksync_protobuf::ProtoFmt, S: io::AsyncRead + Unpin>", ""), ("ctx::Ctx", "Ctx"), ("stream: &mut S", "stream: &mut Transport"),
+                      ("ctx::Result<T>", "Result<Msg, CtxError>")],
+         subs=[("io::read_exact(ctx, stream, &mut msg_size)", "io_read_exact_4(ctx, stream, &mut msg_size)"),
+               ("u32::from_le_bytes(msg_size)", "verif_u32_from_le(msg_size)   /* R-std */"),
+               ("anyhow_error().into()", "CtxError::from(anyhow_error())"),
+               ("vec![0u8; msg_size as usize]", "verif_alloc(msg_size as usize, Ghost(max_size))   /* R-std + W-ghost: allocation bounded by max_size */"),
+               ("io::read_exact(ctx, stream, &mut msg[..])", "io_read_exact_t(ctx, stream, verif_vec_mut(&mut msg))   /* R-std */"),
+               ("zksync_protobuf::decode(&msg)", "proto_decode(msg.as_slice())")],
+         spec="    ensures true,      // total for every byte sequence; allocates at most max_size bytes (precondition of verif_alloc)\n")
+
+
 def build(repo):
     U = Unit("mux", ["C14"], desc="stream multiplexer", uses="use std::sync::Arc;", crate_attrs="#![feature(allocator_api)]")
     U.repo = repo
     add_header(U)
     add_dispatch(U)
     add_streams(U)
+    add_frame(U)
     return U
